@@ -122,3 +122,30 @@ Proof.
       change (@add R NumR) with Rplus. lra.
     + intros n Hd Hn. destruct n as [|[|[|n]]]; cbn in Hn; lia.
 Qed.
+
+(* ---- non-negative states are fixed points of the positive_init_* clamps ---- *)
+From Coq Require Import FunctionalExtensionality.
+Lemma max0_nonneg l : Forall (fun x => 0 <= x) l -> @Np.engine_max R NumR (@zero R NumR) l = l.
+Proof.
+  intros H. unfold Np.engine_max, sv. induction H as [|x l Hx Hl IH]; [reflexivity|]. cbn [map]. rewrite IH.
+  f_equal. change (@nmax R NumR) with Rmax. rewrite zeroR. apply Rmax_right. exact Hx.
+Qed.
+Lemma init_state_nonneg opts st : nonnegative_state st -> init_state (@np_engine R NumR) opts st = st.
+Proof.
+  intros (Hr & Hv & Hw). destruct st as [srho sv_ sw suo sdo svc sdd]. unfold init_state. cbn [s_rho s_v s_w s_uo s_do s_vc s_dd] in *.
+  f_equal; apply functional_extensionality; intros x.
+  - destruct (pi_rho opts); [|reflexivity]. cbn [e_max np_engine]. apply max0_nonneg. apply Hr.
+  - destruct (pi_v opts); [|reflexivity]. cbn [e_max np_engine]. apply max0_nonneg. apply Hv.
+  - destruct (pi_w opts); [|reflexivity]. cbn [e_max_s np_engine]. unfold Np.engine_max_s.
+    change (@nmax R NumR) with Rmax. rewrite zeroR. apply Rmax_right. apply Hw.
+Qed.
+
+Theorem np_every_output_finite_from_nonnegative :
+  every_output_finite_from_nonnegative (@np_engine PR NumPR) (@np_engine R NumR).
+Proof.
+  intros U P g opts st WFG V WL HT NN A. apply np_every_output_finite; try assumption.
+  rewrite (init_state_nonneg opts st NN). exact A.
+Qed.
+Theorem cs_every_output_finite_from_nonnegative :
+  every_output_finite_from_nonnegative (@cs_engine PR NumPR) (@cs_engine R NumR).
+Proof. rewrite !cs_engine_eq_np. exact np_every_output_finite_from_nonnegative. Qed.
